@@ -228,6 +228,17 @@ func runC11(c *Ctx) {
 		"non-trivial = key set with >= 2 keys of which one needs escaping, or >= 2 fork parts, or a journal name with chunk/uniquifier; distinct = distinct canonical case"
 	r.Histogram = map[string]int{}
 
+	if only := os.Getenv("C11_ONLY"); only != "" { // debugging aid: run one stream
+		switch only {
+		case "batch":
+			c11Batches(c)
+		case "ta":
+			c11KeyLens(c)
+			c11LongKeys(c)
+			c11TierA(c)
+		}
+		return
+	}
 	c11Keys(c)
 	c11ForkIds(c)
 	c11Search(c)
@@ -236,6 +247,11 @@ func runC11(c *Ctx) {
 	c11CompiledRagged(c)
 	c11World(c)
 	c11Find(c)
+	c11Batches(c)
+	c11KeyLens(c)
+	c11LongKeys(c)
+	c11NearKeys(c)
+	c11TierA(c)
 	c11Attempts(c)
 	c11Resets(c)
 }
@@ -986,6 +1002,28 @@ func c11Compiled(c *Ctx) {
 			continue
 		}
 		r.hist("compiled_nestings")
+		// the fork set as the model builds it (makeForkIds; forkSet_names_nodup): same id strings in the same order
+		{
+			enc := func(kind string, n int, keys []string) string {
+				if kind == "arr" {
+					return fmt.Sprintf("a:%d", n)
+				}
+				ks := append([]string{}, keys...)
+				sort.Strings(ks)
+				return "k:" + hxList(ks)
+			}
+			// ForkRoots of TOP.INNER.ECHO: the outer call's source first
+			rep := c.Drv.Ask("C11.makeforkids", enc(nn.okind, nn.on, nn.okeys)+";"+enc(nn.ikind, nn.in, nn.ikeys))
+			var mids []string
+			for _, h := range strings.Split(rep, ";") {
+				mids = append(mids, unhx(h))
+			}
+			r.hist("compiled_forksets_vs_model")
+			if strings.Join(mids, "\x00") != strings.Join(ids, "\x00") {
+				r.violate(Violation{Kind: "correspondence", Key: "C11:forkset-model-mismatch", What: "the fork set ForkIdSet.MakeForkIds builds for a compiled nesting differs from the model's makeForkIds (id strings, list order)",
+					Input: map[string]interface{}{"mro": src, "stage": "TOP.INNER.ECHO"}, Impl: ids, Model: mids, Broken: "correspondence C11.makeforkids (forkSet_names_nodup)"})
+			}
+		}
 		want := 1
 		if nn.okind == "arr" {
 			want *= nn.on
@@ -1221,6 +1259,27 @@ func c11World(c *Ctx) {
 	scen = append(scen, c11Scenario{name: "shuffled-array-12", stage: "fork1", sstage: "chnk0", pipe: "fork_2", forks: shuf, chunks: 11})
 	scen = append(scen, c11Scenario{name: "map-looks-numeric", stage: "u0123456789", sstage: "fork", pipe: "P",
 		forks: [][]c11Part{{key("1", []string{"1", "0", "+0", "-0"}, true)}, {key("0", []string{"1", "0", "+0", "-0"}, true)}, {key("+0", nil, false)}, {key("-0", nil, false)}}, chunks: 101})
+	// near-equal sibling keys in ONE fork table: the lookup must be exact (no case folding, normalisation, trimming …)
+	nnear := 3
+	if c.Thorough {
+		nnear = 40
+	}
+	for i := 0; i < nnear; i++ {
+		base := c11NearBase(c)
+		if i == 0 {
+			base = c11NearBases[0]
+		}
+		ks := c11NearSubset(c, base, 9)
+		if c.Rng.Intn(2) == 0 {
+			sort.Strings(ks) // the order in which the runtime lists the forks of a map call
+		}
+		var forks [][]c11Part
+		st := c.Rng.Intn(2) == 0
+		for _, k := range ks {
+			forks = append(forks, []c11Part{key(k, ks, st)})
+		}
+		scen = append(scen, c11Scenario{name: fmt.Sprintf("near-equal-keys-%d", i), stage: "ST", sstage: "SP", pipe: "PIPE", forks: forks, chunks: 2})
+	}
 	nrand := 6
 	if c.Thorough {
 		nrand = 150
@@ -1475,6 +1534,11 @@ func c11RunScenario(c *Ctx, w *core.VerifWorld, sc c11Scenario) {
 			probes = append(probes, strconv.Itoa(i), "0"+strconv.Itoa(i), "+"+strconv.Itoa(i))
 		}
 		probes = append(probes, "", "-0", "-1", "x", strconv.Itoa(len(ns)), "99999999999999999999")
+		for i, nm := range ns {
+			if i < 12 {
+				probes = append(probes, c11NearEqualFamily(nm)[1:]...)
+			}
+		}
 		var greqs [][]string
 		for _, p := range probes {
 			greqs = append(greqs, []string{"C11.getfork", hxList(ns), hx(p)})
@@ -1492,7 +1556,11 @@ func c11RunScenario(c *Ctx, w *core.VerifWorld, sc c11Scenario) {
 			}
 			// property on the real code: the index names the fork that is returned
 			if g >= 0 && ns[g] != probes[i] {
-				r.violate(Violation{Kind: "property", Key: "C11:misroute:numeric-position", What: "Node.getFork returns a fork whose name is not the requested one",
+				gkey := "C11:getfork-inexact-match"
+				if _, err := strconv.Atoi(probes[i]); err == nil {
+					gkey = "C11:misroute:numeric-position"
+				}
+				r.violate(Violation{Kind: "property", Key: gkey, What: "Node.getFork returns a fork whose name is not the requested one",
 					Input: map[string]interface{}{"fork_names": ns, "index": probes[i]}, Impl: fmt.Sprintf("position %d = fork%s", g, ns[g]), Expect: "the fork named fork" + probes[i] + " or none",
 					Broken: "getFork_exact"})
 			}
